@@ -21,4 +21,4 @@ Extraction "model.ml"
   Wire.decode_packet Wire.decode_handshake_response Wire.decode_tunnel_response
   Wire.decode_tunnel_auth_response Wire.decode_channel_response Wire.decode_data
   TunnelOrder.feeds TunnelOrder.mon0
-  Oracles.c17_oracle Oracles.first_reject Oracles.negotiation_succeeds_b.
+  Oracles.c17_oracle Oracles.c16_resp_ok Oracles.spec_redir Oracles.first_reject Oracles.negotiation_succeeds_b.
